@@ -1,6 +1,5 @@
 (* Proofs/RenameInv.v — after rename_duplicate_attributes the slugs of a class's attrs are
-   pairwise distinct, provided every by-preference rename picked a free slug
-   (snd (rename_checked l) = true). *)
+   pairwise distinct (unconditionally since the by-preference rename goes through unique_name). *)
 From Coq Require Import NArith PeanoNat List Bool Lia String.
 From XV Require Import Base.Str Base.Dec Gen.SafeTables Model.Safe Model.Rename
   Proofs.SafeText Proofs.RenameUnique.
@@ -128,10 +127,10 @@ Section Rename.
 
   (* one group *)
   Lemma group_step K k l :
-    Inv K l -> ~ In k K -> preference_fresh l (positions_of keys k) = true ->
+    Inv K l -> ~ In k K ->
     Inv (k :: K) (rename_group l (positions_of keys k)).
   Proof.
-    intros [Hl [HK Hu]] Hk Hpf.
+    intros [Hl [HK Hu]] Hk.
     pose proof (positions_NoDup keys k) as Hnd.
     assert (Hmem : forall i, In i (positions_of keys k) <-> (i < n)%nat /\ key0 i = k).
     { intros i. rewrite In_positions, keys_length. reflexivity. }
@@ -165,11 +164,12 @@ Section Rename.
     - apply (ByIndex i []). reflexivity.
     - destruct (negb (a_is_enumeration (get l i))) eqn:Een.
       + (* by preference *)
-        unfold preference_fresh in Hpf. rewrite Een in Hpf.
         unfold rename_by_preference.
         pose proof (preference_pos (get l i) (get l j) i j) as Hpos.
-        destruct (preference (get l i) (get l j) i j) as [p nm] eqn:Ep. cbn [fst] in Hpos.
-        apply negb_true_iff, str_in_false in Hpf.
+        destruct (preference (get l i) (get l j) i j) as [p nm0] eqn:Ep. cbn [fst] in Hpos.
+        set (nm := unique_name nm0 (slugs_except p l)).
+        assert (Hpf : ~ In (alnum nm) (slugs_except p l))
+          by (apply str_in_false; apply unique_name_fresh).
         assert (Hi : (i < n)%nat /\ key0 i = k) by (apply Hmem; left; reflexivity).
         assert (Hj : (j < n)%nat /\ key0 j = k) by (apply Hmem; right; left; reflexivity).
         assert (Hij : i <> j) by (inversion Hnd as [|? ? Hnin _]; subst; intros ->; apply Hnin; left; reflexivity).
@@ -209,49 +209,28 @@ Section Rename.
   Qed.
 
   (* the whole fold *)
-  Lemma fold_inv : forall ks K l b l' b',
+  Lemma fold_inv : forall ks K l,
     Inv K l -> NoDup ks -> (forall k, In k ks -> ~ In k K) ->
-    fold_left (fun st g => (rename_group (fst st) g, snd st && preference_fresh (fst st) g))
-              (map (positions_of keys) ks) (l, b) = (l', b') ->
-    b' = true -> Inv (rev ks ++ K) l' /\ b = true.
+    Inv (rev ks ++ K) (fold_left rename_group (map (positions_of keys) ks) l).
   Proof.
-    induction ks as [|k ks IH]; intros K l b l' b' HI Hnd Hks Hf Hb'.
-    - cbn in Hf. injection Hf as <- <-. split; [exact HI|exact Hb'].
-    - cbn [map fold_left fst snd] in Hf.
+    induction ks as [|k ks IH]; intros K l HI Hnd Hks.
+    - exact HI.
+    - cbn [map fold_left].
       inversion Hnd as [|x xs Hnin Hnd']; subst x xs.
-      destruct (preference_fresh l (positions_of keys k)) eqn:Epf.
-      + assert (HI' := group_step K k l HI (Hks k (or_introl eq_refl)) Epf).
-        assert (Hks' : forall k', In k' ks -> ~ In k' (k :: K)).
-        { intros k' Hk' [<-|H]; [contradiction|]. apply (Hks k'); [right; exact Hk'|exact H]. }
-        destruct (IH (k :: K) _ _ _ _ HI' Hnd' Hks' Hf Hb') as [I B].
-        split.
-        * cbn [rev]. rewrite <- app_assoc. exact I.
-        * rewrite andb_true_r in B. exact B.
-      + exfalso. rewrite andb_false_r in Hf.
-        assert (Hfalse : forall gs st, snd st = false ->
-                 snd (fold_left (fun st g => (rename_group (fst st) g, snd st && preference_fresh (fst st) g)) gs st) = false).
-        { induction gs as [|g gs IHg]; intros st Hs; [exact Hs|]. cbn [fold_left]. apply IHg. cbn. rewrite Hs. reflexivity. }
-        specialize (Hfalse (map (positions_of keys) ks) (rename_group l (positions_of keys k), false) eq_refl).
-        rewrite Hf in Hfalse. cbn in Hfalse. congruence.
+      assert (HI' := group_step K k l HI (Hks k (or_introl eq_refl))).
+      assert (Hks' : forall k', In k' ks -> ~ In k' (k :: K)).
+      { intros k' Hk' [<-|H]; [contradiction|]. apply (Hks k'); [right; exact Hk'|exact H]. }
+      pose proof (IH (k :: K) _ HI' Hnd' Hks') as I.
+      cbn [rev]. rewrite <- app_assoc. exact I.
   Qed.
 
-  Lemma fold_checked_fst gs : forall (l : list attr) (b : bool),
-    fst (fold_left (fun st g => (rename_group (fst st) g, snd st && preference_fresh (fst st) g)) gs (l, b))
-    = fold_left rename_group gs l.
-  Proof. induction gs as [|g gs IH]; intros l b; [reflexivity|]. cbn [fold_left fst snd]. apply IH. Qed.
-
-  Lemma rename_checked_fst : fst (rename_checked l0) = rename_duplicate_attributes l0.
-  Proof. unfold rename_checked, rename_duplicate_attributes. apply fold_checked_fst. Qed.
-
-  Theorem rename_slugs_distinct :
-    snd (rename_checked l0) = true -> NoDup (map a_slug (rename_duplicate_attributes l0)).
+  Theorem rename_slugs_distinct : NoDup (map a_slug (rename_duplicate_attributes l0)).
   Proof.
-    intros Hc. rewrite <- rename_checked_fst.
-    unfold rename_checked in *. unfold group_by in *. fold keys in Hc |- *.
-    destruct (fold_left _ _ (l0, true)) as [l' b'] eqn:Ef. cbn [fst snd] in *.
+    unfold rename_duplicate_attributes, group_by. fold keys.
     assert (I0 : Inv [] l0).
     { split; [reflexivity|split]; [intros i _ []|reflexivity]. }
-    destruct (fold_inv (dedup keys []) [] l0 true l' b' I0 (dedup_NoDup keys []) (fun _ _ H => H) Ef Hc) as [[Hl [HK _]] _].
+    destruct (fold_inv (dedup keys []) [] l0 I0 (dedup_NoDup keys []) (fun _ _ H => H)) as [Hl [HK _]].
+    set (l' := fold_left rename_group (map (positions_of keys) (dedup keys [])) l0) in *.
     apply (NoDup_nth _ (a_slug dummy_attr)). intros i j Hi Hj E.
     rewrite map_length in Hi, Hj. rewrite !map_nth in E. fold (get l' i) in E. fold (get l' j) in E.
     destruct (Nat.eq_dec i j) as [->|Hne]; [reflexivity|]. exfalso.
